@@ -134,9 +134,27 @@ CLAIMED.update({
         ref='DESIGN.md section 5 C20'),
 })
 
+CLAIMED.update({
+    'C16': dict(
+        text='Deductive proof of the per-function clauses that make the checker exact about variable names: a repeated declaration yields exactly one DuplicateVariable at the name token and keeps the first declaration; '
+             'a first declaration yields no report and registers the variable as declared and unused; a use of a name that is not declared yields an UnboundVariable at the use, a use of a declared name is resolved to its declaration, '
+             'yields no UnboundVariable and removes the name from the unused set; expression checks never touch the set of declarations; reports are only appended (earlier ones are kept); a type report arises only for two different types; '
+             'the send-all / capped-scope flags are written only where the frame allows (checkSentValue, checkExpression, checkDestination cannot touch them) and are restored by checkSource.',
+        note='NOT decided: the "never cries wolf" half as a whole (that a script which is well typed by the language rules gets no error) - it needs a typing judgment as a recursive specification that the checker is proved against; '
+             'the once-per-variable count over a whole script (the clauses are per call) and the unused-variable loop (map iteration) are argued from these clauses, not machine-checked. One genuine defect of this property was repaired (see known_findings.json).',
+        ref='DESIGN.md section 5 C16'),
+    'C17': dict(
+        text='Deductive proof of the clauses on both sides that the property connects, each for all inputs: (checker) an undeclared variable in any expression position is reported, also as the account of a source that follows an unbounded one; '
+             '(interpreter) parseVar maps the six declared types to values of exactly those kinds and rejects every other type name with InvalidTypeErr, send-all rejects unbounded and allotment sources with the typed errors the checker announces, '
+             'run-time failures are of the typed kinds only (clauses shared with C12).',
+        note='NOT decided: the implication itself (clean check => no static-class failure at run time) for whole programs. It is a relational property of two recursive traversals; it would need one typing judgment proved sound against evaluateExpr and complete against checkExpression. '
+             'The clauses above are the per-function facts such a proof would use; the composition is an argument in DESIGN.md.',
+        ref='DESIGN.md section 5 C17'),
+})
+
 NOT_APPLICABLE = {}
 
-PENDING = [ 'C16', 'C17']
+PENDING = []
 
 
 def main():
